@@ -1,4 +1,5 @@
 import LentilVerif.Model.ZernikeRadial
+import LentilVerif.Model.Zernike
 /-! Noll index arithmetic (core Lean, `omega`). Helper lemmas — property theorems are in Props/C11.lean. -/
 namespace Lentil
 
@@ -135,4 +136,19 @@ theorem codeIndex_eq (j : Nat) (hj : 1 ≤ j) : codeIndex j = (nollM j, nollN j)
     by_cases hj2 : j % 2 = 0
     · rw [if_neg (by omega), if_pos hj2]; omega
     · rw [if_pos (by omega), if_neg hj2]; omega
+/-! ### evaluation strategy of the driver -/
+
+theorem radialEval_eq_terms {K : Type} [Add K] [Mul K] [Zero K] [One K] [IntCast K] (n m : Nat) (rho : K) :
+    radialEval n m rho = evalTerms (radialTerms n m) rho := by
+  unfold radialEval evalTerms radialTerms
+  split
+  · rfl
+  · rw [List.foldl_map]
+
+theorem zernFast_eq {K : Type} [Add K] [Mul K] [Zero K] [One K] [IntCast K] (sqrtN : Nat → K) (cos sin : K → K)
+    (j : Nat) (normalize : Bool) (rho theta : K) (mask : Bool) :
+    zernFast sqrtN cos sin j normalize rho theta mask = zernAt sqrtN cos sin j normalize rho theta mask := by
+  unfold zernFast zernAt
+  simp only [radialEval_eq_terms]
+
 end Lentil
